@@ -16,25 +16,33 @@ type histShape struct {
 	files     string
 	globfiles string
 	requests  string
+	writes    string // "A>b.txt": the commands of A may rewrite b.txt while they run
 }
 
 var histShapes = []histShape{
-	{"one-file-task", "task A(\"a.txt\") {\n\tcmdA\n}\n", "a.txt", "", "A"},
-	{"file-task+no-dep-task", "task A(\"a.txt\") {\n\tcmdA\n}\ntask B() {\n\tcmdB\n}\n", "a.txt", "", "A;B;A,B;B,A"},
-	{"two-file-tasks", "task A(\"a.txt\") {\n\tcmdA\n}\ntask B(\"b.txt\") {\n\tcmdB\n}\n", "a.txt,b.txt", "", "A;B;A,B"},
-	{"shared-file", "task A(\"a.txt\") {\n\tcmdA\n}\ntask B(\"a.txt\") {\n\tcmdB1\n\tcmdB2\n}\n", "a.txt", "", "A;B;A,B"},
-	{"glob-task", "task A(\"*.g\") {\n\tcmdA\n}\n", "", "x.g,y.g", "A"},
-	{"chain", "task A(\"a.txt\") {\n\tcmdA\n}\ntask B(A, \"b.txt\") {\n\tcmdB\n}\n", "a.txt,b.txt", "", "A;B"},
-	{"glob+file", "task A(\"*.g\", \"a.txt\") {\n\tcmdA\n}\ntask B() {}\n", "a.txt", "x.g", "A;A,B"},
+	{"one-file-task", "task A(\"a.txt\") {\n\tcmdA\n}\n", "a.txt", "", "A", ""},
+	{"file-task+no-dep-task", "task A(\"a.txt\") {\n\tcmdA\n}\ntask B() {\n\tcmdB\n}\n", "a.txt", "", "A;B;A,B;B,A", ""},
+	{"two-file-tasks", "task A(\"a.txt\") {\n\tcmdA\n}\ntask B(\"b.txt\") {\n\tcmdB\n}\n", "a.txt,b.txt", "", "A;B;A,B", ""},
+	{"shared-file", "task A(\"a.txt\") {\n\tcmdA\n}\ntask B(\"a.txt\") {\n\tcmdB1\n\tcmdB2\n}\n", "a.txt", "", "A;B;A,B", ""},
+	{"glob-task", "task A(\"*.g\") {\n\tcmdA\n}\n", "", "x.g,y.g", "A", ""},
+	{"chain", "task A(\"a.txt\") {\n\tcmdA\n}\ntask B(A, \"b.txt\") {\n\tcmdB\n}\n", "a.txt,b.txt", "", "A;B", ""},
+	{"glob+file", "task A(\"*.g\", \"a.txt\") {\n\tcmdA\n}\ntask B() {}\n", "a.txt", "x.g", "A;A,B", ""},
 	// a task with a glob that runs only as somebody else's dependency (a seeded change expanded the
 	// globs of the requested tasks only, DESIGN.md 9.5)
-	{"glob-in-dependency", "task A(\"*.g\", \"a.txt\") {\n\tcmdA\n}\ntask B(A) {\n\tcmdB\n}\n", "a.txt", "x.g", "A;B"},
+	// a command of A may rewrite the file B depends on, in the same run (a formatter or generator
+	// before its consumer): B must be recorded against what it actually ran on (a seeded change
+	// that read every file once per run went unnoticed while commands had no effects, DESIGN.md 9.5)
+	{"chain+rewrite", "task A(\"a.txt\") {\n\tcmdA\n}\ntask B(A, \"b.txt\") {\n\tcmdB\n}\n", "a.txt,b.txt", "", "A;B", "A>b.txt"},
+	// ... and the rewritten file is a dependency of both (fmt("src") then test(fmt, "src")): no
+	// claim about A in such a step, every claim about B
+	{"shared-file+rewrite", "task A(\"a.txt\") {\n\tcmdA\n}\ntask B(A, \"a.txt\") {\n\tcmdB\n}\n", "a.txt", "", "A;B", "A>a.txt"},
+	{"glob-in-dependency", "task A(\"*.g\", \"a.txt\") {\n\tcmdA\n}\ntask B(A) {\n\tcmdB\n}\n", "a.txt", "x.g", "A;B", ""},
 }
 
 var histShapesThorough = []histShape{
-	{"three-tasks", "task A(\"a.txt\") {\n\tcmdA\n}\ntask B(\"b.txt\") {\n\tcmdB\n}\ntask C() {\n\tcmdC\n}\n", "a.txt,b.txt", "", "A;B;C;A,B;A,C;B,C;A,B,C"},
-	{"three-chain", "task A(\"a.txt\") {\n\tcmdA\n}\ntask B(A, \"a.txt\") {\n\tcmdB\n}\ntask C(B) {\n\tcmdC\n}\n", "a.txt", "", "A;B;C;C,A"},
-	{"two-globs", "task A(\"*.g\") {\n\tcmdA\n}\ntask B(\"*.g\", \"b.txt\") {\n\tcmdB\n}\n", "b.txt", "x.g,y.g", "A;B;A,B"},
+	{"three-tasks", "task A(\"a.txt\") {\n\tcmdA\n}\ntask B(\"b.txt\") {\n\tcmdB\n}\ntask C() {\n\tcmdC\n}\n", "a.txt,b.txt", "", "A;B;C;A,B;A,C;B,C;A,B,C", ""},
+	{"three-chain", "task A(\"a.txt\") {\n\tcmdA\n}\ntask B(A, \"a.txt\") {\n\tcmdB\n}\ntask C(B) {\n\tcmdC\n}\n", "a.txt", "", "A;B;C;C,A", ""},
+	{"two-globs", "task A(\"*.g\") {\n\tcmdA\n}\ntask B(\"*.g\", \"b.txt\") {\n\tcmdB\n}\n", "b.txt", "x.g,y.g", "A;B;A,B", ""},
 }
 
 func histJobs(shapes []histShape, steps int, force, crash, rm int) []jobSpec {
@@ -48,7 +56,7 @@ func histJobsX(shapes []histShape, steps int, force, crash, rm, runerr, missing 
 	for _, sh := range shapes {
 		p := map[string]string{"spokfile": sh.spokfile, "files": sh.files, "globfiles": sh.globfiles, "requests": sh.requests,
 			"steps": strconv.Itoa(steps), "force": strconv.Itoa(force), "crash": strconv.Itoa(crash), "rmcache": strconv.Itoa(rm),
-			"runerr": strconv.Itoa(runerr), "missing": strconv.Itoa(missing)}
+			"runerr": strconv.Itoa(runerr), "missing": strconv.Itoa(missing), "writes": sh.writes}
 		name := fmt.Sprintf("History[%s steps=%d force=%d crash=%d]", sh.name, steps, force, crash)
 		if runerr+missing > 0 {
 			name = fmt.Sprintf("History[%s steps=%d force=%d crash=%d runerr=%d missing=%d]", sh.name, steps, force, crash, runerr, missing)
@@ -62,12 +70,12 @@ func histJobsX(shapes []histShape, steps int, force, crash, rm, runerr, missing 
 func indJobs(shapes []histShape) []jobSpec {
 	var out []jobSpec
 	for _, sh := range shapes {
-		p := map[string]string{"spokfile": sh.spokfile, "files": sh.files, "globfiles": sh.globfiles, "requests": sh.requests, "force": "1"}
+		p := map[string]string{"spokfile": sh.spokfile, "files": sh.files, "globfiles": sh.globfiles, "requests": sh.requests, "force": "1", "writes": sh.writes}
 		out = append(out, jobSpec{Name: fmt.Sprintf("InductiveStep[%s]", sh.name), Pkg: "indh", Func: "Step", Params: p, Opts: interp.Options{Budget: 40_000_000}})
 		if strings.Count(sh.spokfile, "task ") > 1 {
 			// the invocation may also stop part-way: the runner fails on a command, a literal
 			// dependency file is missing
-			q := map[string]string{"spokfile": sh.spokfile, "files": sh.files, "globfiles": sh.globfiles, "requests": sh.requests, "force": "1", "runerr": "1", "missing": "1"}
+			q := map[string]string{"spokfile": sh.spokfile, "files": sh.files, "globfiles": sh.globfiles, "requests": sh.requests, "force": "1", "runerr": "1", "missing": "1", "writes": sh.writes}
 			out = append(out, jobSpec{Name: fmt.Sprintf("InductiveStep[%s runerr=1 missing=1]", sh.name), Pkg: "indh", Func: "Step", Params: q, Opts: interp.Options{Budget: 40_000_000}})
 		}
 	}
@@ -169,7 +177,10 @@ func histCheck(id, title string, force, crash int, explain string) *checkDef {
 }
 
 func init() {
-	register(histCheck("C01", "", 1, 0, "C01: whenever a result is reported skipped, the task's current dependency paths and contents equal those recorded at its last successful completion and the cache was not removed since."))
+	c01 := histCheck("C01", "", 1, 0, "C01: whenever a result is reported skipped, the task's current dependency paths and contents equal those recorded at its last successful completion and the cache was not removed since.")
+	// a stale digest left by a forced step of the inductive harness is C14's wording of the same thing
+	c01.AlsoSigs = []string{"C14/a-forced-run-damaged-the-cache/recorded-digest-is-not-that-of-the-last-success"}
+	register(c01)
 	register(histCheck("C02", "", 1, 0, "C02: a task with a matching file dependency whose inputs equal those of its last success (cache not removed, no --force) must be skipped and run no command; a task without file dependencies is never skipped."))
 	c14 := histCheck("C14", "", 1, 0, "C14: under --force no task of the run is skipped and all commands run; and no later unforced run skips a task whose inputs differ from its last success because of a forced run.")
 	// the second half of C14 is C01's step assertion restricted to staleness caused by a forced run
@@ -214,9 +225,9 @@ func init() {
 			"Non-termination is decided, not sampled: a path that exceeds its instruction budget is an unwinding failure, reported as a violation only when the native replay of the same configuration hangs under its watchdog. All variables are booleans/choices, so inside the bound this is complete enumeration through the real code.",
 		Bounds: func(tier string) string {
 			if tier == "thorough" {
-				return "chains of depth 1..4, all 12^depth level contents x every start level x stop in {each level, root, unrelated directory}"
+				return "chains of depth 1..4, all 12^depth level contents x every start level x stop in {each level, root, unrelated directory}; up to depth 3 also with the start directory given relative to a working directory at or above it (termination and soundness of the result only)"
 			}
-			return "chains of depth 1..3, all 12^depth level contents x every start level x stop in {each level, root, unrelated directory}"
+			return "chains of depth 1..3, all 12^depth level contents x every start level x stop in {each level, root, unrelated directory}; up to depth 2 also with the start directory given relative to a working directory at or above it (termination and soundness of the result only)"
 		},
 		Outside:      []string{"deeper chains; symbolic links; permission errors; directories above the chain contain no spokfile"},
 		Assumptions:  []string{"os.ReadDir is the in-memory model (entries sorted by name, as documented); filepath.Abs/Join/Dir run from their real source", "engine trusted base: go/ssa, the forked interpreter"},
@@ -228,7 +239,12 @@ func init() {
 			}
 			var out []jobSpec
 			for d := 1; d <= max; d++ {
-				out = append(out, jobSpec{Name: fmt.Sprintf("Find[depth=%d]", d), Func: "Find", Params: map[string]string{"depth": strconv.Itoa(d)}, Opts: interp.Options{Budget: 400_000}})
+				// relative start directories up to depth max-1, absolute ones only at the deepest level
+				rel := "1"
+				if d == max {
+					rel = "0"
+				}
+				out = append(out, jobSpec{Name: fmt.Sprintf("Find[depth=%d relative=%s]", d, rel), Func: "Find", Params: map[string]string{"depth": strconv.Itoa(d), "relative": rel}, Opts: interp.Options{Budget: 400_000}})
 			}
 			return out
 		},
